@@ -708,8 +708,12 @@ impl<'a> LiveEvents<'a> {
 
     #[cold]
     fn io_error(&self) -> Result<(), Error> {
-        if let Some(error) = self.error.take() {
-            Err(Error::IOError { cause: error })
+        // The failure stays recorded: the character stream ended where the reader failed, so
+        // whatever the parser still produces from it is cut short and must never be delivered.
+        if let Some(error) = self.error.borrow().as_ref() {
+            Err(Error::IOError {
+                cause: std::io::Error::new(error.kind(), error.to_string()),
+            })
         } else {
             Ok(())
         }
